@@ -6,6 +6,7 @@ import (
 	"path/filepath"
 	"sort"
 	"strings"
+	"sync"
 	"time"
 
 	"github.com/gopacket/gopacket"
@@ -22,6 +23,8 @@ import (
 
 type (
 	Builder struct {
+		// knownPcaps and packetCount are extended by FromPcap (import goroutine) and read by the service loop
+		statsLock        sync.Mutex
 		snapshots        []*snapshot
 		knownPcaps       []*pcapmetadata.PcapInfo
 		packetCount      uint
@@ -552,10 +555,12 @@ outer:
 		b.snapshotFilename = filepath.Base(newSnapshotFilename)
 	}
 
+	b.statsLock.Lock()
 	b.knownPcaps = append(b.knownPcaps, newPcapInfos...)
 	for _, pi := range newPcapInfos {
 		b.packetCount += pi.PacketCount
 	}
+	b.statsLock.Unlock()
 	b.snapshots = newSnapshots
 
 	outputFiles := []string{}
@@ -567,9 +572,13 @@ outer:
 }
 
 func (b *Builder) PacketCount() uint {
+	b.statsLock.Lock()
+	defer b.statsLock.Unlock()
 	return b.packetCount
 }
 
 func (b *Builder) KnownPcaps() []*pcapmetadata.PcapInfo {
-	return b.knownPcaps
+	b.statsLock.Lock()
+	defer b.statsLock.Unlock()
+	return b.knownPcaps[:len(b.knownPcaps):len(b.knownPcaps)]
 }
